@@ -107,6 +107,10 @@ CHECKS["C11"] = {
          "params": {"quick": grid(prefix=[0], n=[1, 2, 3]) + grid(prefix=[1, 2, 3, 4, 5, 6, 7, 8, 9, 10, 11, 12, 13, 15, 16, 17, 18, 20, 21, 22, 23], n=[1, 2, 3]) + grid(prefix=[19], n=[4, 8, 12]),
                     "thorough": grid(prefix=[0], n=[1, 2, 3, 4]) + grid(prefix=list(range(1, 14)) + list(range(15, 24)), n=[1, 2, 3, 4]) + grid(prefix=[19], n=[6, 10, 14])},
          "summarise": SCAN_SUMMARISE, "cover": [], "alloc_limit": 31457280, "max_alloc": 32, "replay_mem_limit_kb": 4000000},
+        {"name": "wire", "pkg": "internal/session", "pkgname": "session", "entry": "VerifC11Wire", "files": ["zz_verif_c18.go", "zz_verif_c18b.go", "zz_verif_c11wire.go"],
+         "with": ["state_export", "backend_export", "verifdb"], "goroutines": True, "replay_timeout_s": 60,
+         "params": {"quick": grid(state=[0], n=[0, 1]), "thorough": grid(state=[0, 1, 2], n=[1, 2, 3])},
+         "summarise": SCAN_SUMMARISE, "cover": ["served"]},
         {"name": "nesting", "pkg": "imap/command", "pkgname": "command", "entry": "VerifC11Nesting", "files": ["zz_verif_c11.go", "zz_verif_reader.go"],
          "params": {"quick": grid(unit=[0, 1, 2], k=[64], amplify=[8000000]), "thorough": grid(unit=[0, 1, 2], k=[64, 128], amplify=[8000000])},
          "cover": ["nesting-run"], "max_depth": 1000, "replay_accept_crash": True, "replay_timeout_s": 300},
